@@ -217,7 +217,8 @@ class SqlStorage(MutableMapping):
                     sql = "SELECT id, name, uri FROM pyro_names WHERE id IN (SELECT object FROM pyro_metadata WHERE metadata IN ({seq}))" \
                           .format(seq=",".join(['?'] * len(metadata_any)))
                 else:
-                    # all of the given metadata
+                    # all of the given metadata (as a set: a repeated tag must not raise the required count)
+                    metadata_all = set(metadata_all)
                     params = list(metadata_all)
                     params.append(len(metadata_all))
                     sql = "SELECT id, name, uri FROM pyro_names WHERE id IN (SELECT object FROM pyro_metadata WHERE metadata IN ({seq}) " \
